@@ -19,13 +19,13 @@ open Scfg
 theorem no_ctl_error (H : Hier) (htop : Name) (h : ctlOK H htop = true) :
     ∀ ds, ∀ o ∈ run (sysName H true) (initName H htop true) ds, o.isCtlErr = false := by
   simp only [ctlOK, Bool.and_eq_true] at h
-  exact reachOK_sound _ _ _ _ h.1.1
+  exact reachOKc_sound _ _ _ _ h.1.1
 
 /-- The same for the walk region by region. -/
 theorem no_ctl_error_region (H : Hier) (htop : Name) (h : ctlOK H htop = true) :
     ∀ ds, ∀ o ∈ run (sysRegion H true) (initRegion H htop true) ds, o.isCtlErr = false := by
   simp only [ctlOK, Bool.and_eq_true] at h
-  exact reachOK_sound _ _ _ _ h.1.2
+  exact reachOKc_sound _ _ _ _ h.1.2
 
 /-- Reading an unset variable is a control error of the semantics (so the check is not
     vacuous): `synthExec` reports it with the control flag `isCtlErr` recognises. -/
